@@ -1116,9 +1116,11 @@ bool Session::send_process(Message *msg) // called from the connection (possibly
 
 		if (!is_dup)
 		{
+			// the control record is written one ahead of the counter: both change under the same lock, otherwise a reader
+			// thread persisting the numbers in between stores the old outbound number over the new one
+			f8_scoped_spin_lock guard(_per_spl, _connection->get_pmodel() == pm_coro); // not needed for coroutine mode
 			if (_persist)
 			{
-				f8_scoped_spin_lock guard(_per_spl, _connection->get_pmodel() == pm_coro); // not needed for coroutine mode
 				if (!msg->is_admin())
 					_persist->put(_next_send_seq, optr); // this message only; ptr may refer to the (cleared) batch buffer
 				_persist->put(_next_send_seq + 1, _next_receive_seq);
